@@ -65,12 +65,12 @@ Proof. intros H. unfold resolve_guard. rewrite (no_conf_has B H). apply andb_fal
 Lemma resolve_strategy_generic_no_conf B s : no_conf B -> resolve_strategy_generic B s = B.
 Proof. intros H. unfold resolve_strategy_generic. rewrite resolve_guard_no_conf by exact H. reflexivity. Qed.
 
-Lemma resolve_conflicted_list_no_conf St H p base B s :
-  no_conf B -> resolve_conflicted_list St H p base B s = Ok B.
+Lemma resolve_conflicted_list_no_conf H p base B s :
+  no_conf B -> resolve_conflicted_list H p base B s = Ok B.
 Proof. intros HB. unfold resolve_conflicted_list. rewrite resolve_guard_no_conf by exact HB. reflexivity. Qed.
 
-Lemma resolve_conflicted_dict_no_conf St H p base B s :
-  no_conf B -> resolve_conflicted_dict St H p base B s = Ok B.
+Lemma resolve_conflicted_dict_no_conf H p base B s :
+  no_conf B -> resolve_conflicted_dict H p base B s = Ok B.
 Proof. intros HB. unfold resolve_conflicted_dict. rewrite resolve_guard_no_conf by exact HB. reflexivity. Qed.
 
 Lemma resolve_conflicted_strings_no_conf B s : no_conf B -> resolve_conflicted_strings B s = B.
@@ -113,13 +113,14 @@ Section Identity.
 
   Lemma chunks_id n : make_merge_chunks_with gk (S n) [] [] = Ok [(0, S n, [], [])].
   Proof.
-    unfold make_merge_chunks_with. cbn -[Nat.eqb Nat.ltb].
-    replace (Nat.ltb 0 (S n)) with true by reflexivity.
-    cbn. rewrite Nat.eqb_refl. reflexivity.
+    unfold make_merge_chunks_with. cbn.
+    assert (E : match n with 0 => false | S m' => n <=? m' end = false).
+    { destruct n; [reflexivity|]. apply Nat.leb_gt. lia. }
+    rewrite E. cbn. rewrite Nat.eqb_refl. reflexivity.
   Qed.
 
   Lemma merge_lists_id M rec l p :
-    l <> [] -> merge_lists St H gk strict M rec l p [] [] = Ok [].
+    l <> [] -> merge_lists O cfg St H gk strict M rec l p [] [] = Ok [].
   Proof.
     intros Hl. destruct l as [|x l]; [congruence|].
     unfold merge_lists. cbn [length]. rewrite chunks_id. cbn.
@@ -153,15 +154,18 @@ Section Identity.
     decide base [] [] = Ok [].
   Proof.
     intros Hc Hp Hn1 Hn2. unfold decide_merge_with_diff, mfuel.
-    destruct base; try discriminate; cbn [merge Nat.add].
+    destruct base; try discriminate; cbn [merge Nat.add depth].
     - (* string *)
       destruct Hp as [Hp1 Hp2]. unfold merge_strings.
       change (star_path []) with s_slash. rewrite Hp1, Hp2.
       rewrite merge_lists_id.
-      + cbn. reflexivity.
+      + cbn [bind]. rewrite resolve_conflicted_strings_no_conf by constructor.
+        rewrite resolve_strategy_generic_no_conf by constructor. reflexivity.
       + intros E. apply map_eq_nil in E. apply splitlines_nonempty_list in E; auto. congruence.
-    - rewrite merge_lists_id by congruence. reflexivity.
-    - rewrite merge_dicts_id. reflexivity.
+    - rewrite merge_lists_id by congruence. cbn [bind].
+      rewrite resolve_strategy_generic_no_conf by constructor. reflexivity.
+    - rewrite merge_dicts_id. cbn [bind].
+      rewrite resolve_strategy_generic_no_conf by constructor. reflexivity.
   Qed.
 
   Theorem apply_nil base : apply_decisions base [] = Ok base.
@@ -175,4 +179,15 @@ Proof. reflexivity. Qed.
 
 Theorem decide_id_empty_fixed O cfg St H strict :
   decide_merge_with_diff O cfg St H GuardAnyDiff strict (JArr []) [] [] = Ok [].
-Proof. reflexivity. Qed.
+Proof.
+  unfold decide_merge_with_diff, mfuel. cbn [merge Nat.add depth fold_right].
+  unfold merge_lists. cbn [length]. unfold make_merge_chunks_with. cbn.
+  rewrite resolve_conflicted_list_no_conf by constructor. cbn [bind].
+  rewrite resolve_strategy_generic_no_conf by constructor. reflexivity.
+Qed.
+
+Theorem merge_id_thm : forall O cfg St H base,
+  is_container base = true -> plain_string_root St base -> base <> JArr [] -> base <> JStr [] ->
+  decide_merge_with_diff O cfg St H chunks_guard entry_eq_strict base [] [] = Ok []
+  /\ apply_decisions base [] = Ok base.
+Proof. intros. split; [apply decide_id; assumption | reflexivity]. Qed.
